@@ -57,7 +57,8 @@ def showPairs (l : List (Nat × Nat)) : String :=
 def withSp (tag rest : String) : String := if rest = "" then tag ++ " " else tag ++ " " ++ rest
 
 def dumpSt (topo : List Nat) (maxRef : Nat) (s : St) : List String :=
-  let uids := sortNat (s.pods.map (·.uid))
+  -- an empty allocation takes nothing: not part of the allocation state
+  let uids := sortNat ((s.pods.filter (fun p => !(p.cpus.isEmpty && p.numa.isEmpty))).map (·.uid))
   let podLines := uids.filterMap (fun u => (findPod u s.pods).map (fun p =>
     withSp s!"pod {u} {p.cpus.length}" (" ".intercalate ([showNats (sortNat p.cpus), s!"{p.numa.length}", showNuma p.numa].filter (· ≠ "")))))
   let cpuIds := toSet s.bag
